@@ -246,7 +246,8 @@ func Mutate(r *Rand, doc *GDoc) *Mutation {
 			case 3:
 				val, class = Pick(r, []string{"8:00 -", "8:00 ~ 9:00", "8:00 -\t9:00", "8:00\t- 9:00", "8:00 9:00", "- 9:00", "8:00 -- 9:00", "8:00 - 9:00pm>x"}), "range"
 			case 4:
-				val, class = Pick(r, []string{"9:00 - 8:00", "8:00> - 9:00", "8:00 - <9:00", "12:00pm - 12:00am", "0:01 - 0:00"}), "reversed-range"
+				val, class = Pick(r, []string{"9:00 - 8:00", "8:00> - 9:00", "8:00 - <9:00", "12:00pm - 12:00am", "0:01 - 0:00",
+					"<23:00 - <22:00", "13:00> - 12:00>", "<0:01-<0:00", "23:59> - 0:00>", "24:00 - 23:59", "<24:00 - <23:00"}), "reversed-range"
 			default:
 				val, class = Pick(r, []string{"8:00 - ?>", "8:00 - <?", "8:00 - ?x", "8:00 - ??!", "8:00 - ?-"}), "shifted-placeholder"
 			}
